@@ -49,12 +49,23 @@ func runC01(c *fw.Case) {
 	desync.VerifSetCloneRangeHook(emu.hook)
 	defer desync.VerifSetCloneRangeHook(nil)
 
+	// fault: the caller's context is cancelled at a drawn scheduling step; nil still means "the target is the blob"
+	cancelAt := 0
+	if c.ChanceAdded(1, 10, "c01.cancel") {
+		cancelAt = 1 + c.Draw(300, "c01.cancel.at")
+	}
 	var err error
 	mutated := false
+	cancelled := false
 	sr := c.Sim(func(rt *simrt.RT) {
 		s.store.rt = rt
 		rt.MaxSteps = 300000
 		rt.YieldIO = yieldIO
+		ctx, cancel := context.WithCancel(context.Background())
+		_ = cancel // released with the case; the setup function returns before the tasks run
+		if cancelAt > 0 {
+			rt.AtStep(cancelAt, func() { cancelled = true; c.Fault("context-cancelled"); cancel() })
+		}
 		if mutateAt > 0 {
 			mr := c.Rand("mutate.seed")
 			victim := victims[mr.IntN(len(victims))]
@@ -82,7 +93,7 @@ func runC01(c *fw.Case) {
 				err = e
 				return
 			}
-			_, err = desync.AssembleFile(context.Background(), s.target, s.idx, s.store, seeds, desync.AssembleOptions{N: s.n, InvalidSeedAction: s.action})
+			_, err = desync.AssembleFile(ctx, s.target, s.idx, s.store, seeds, desync.AssembleOptions{N: s.n, InvalidSeedAction: s.action})
 		})
 	})
 	s.store.rt = nil
@@ -116,7 +127,7 @@ func runC01(c *fw.Case) {
 		return
 	}
 	// failure: allowed only outside the liveness clause
-	must := !faulty && !mutated && !s.hasAlias && (s.allValid || s.action != desync.InvalidSeedActionBailOut)
+	must := !faulty && !mutated && !cancelled && !s.hasAlias && (s.allValid || s.action != desync.InvalidSeedActionBailOut)
 	if must {
 		c.Violate("unexpected-failure", "AssembleFile/"+mode, "store complete and fault-free, seeds consistent or action=%d, yet AssembleFile failed: %v (%s)", s.action, err, s.describe())
 		return
